@@ -360,7 +360,9 @@ def post_selection_analyzer(
         if gate is None:
             post_selection.append(False)
             continue
-        can_ps = not all(q in has_ps for q in gate)
+        # An n qubit gate can be post-selected when at least n - 1 of its
+        # qubits are not used by any later multi-qubit gate
+        can_ps = sum(q not in has_ps for q in gate) >= len(gate) - 1
         post_selection.append(can_ps)
         has_ps += gate
     # Return if a gate can have post-selection and all modes which will require
